@@ -120,7 +120,12 @@ func genC10(t *rapid.T) *C10Case {
 					if len(c.Args) > 0 {
 						cc.Args = c10Args(t, consts)
 					}
-					ps.Cases = append(ps.Cases, &PSStmtCase{Key: k, Brace: rapid.Bool().Draw(t, "brace"), Body: &Block{Stmts: []*Stmt{sCmd(cc)}}})
+					pc := &PSStmtCase{Key: k, Brace: rapid.Bool().Draw(t, "brace"), Body: &Block{Stmts: []*Stmt{sCmd(cc)}}}
+					if k != "_" && rapid.IntRange(0, 3).Draw(t, "emptycase") == 0 {
+						// a case may be explicitly empty: when it is the selected one, nothing is emitted for the poryswitch
+						pc.Brace, pc.Body = true, &Block{Stmts: []*Stmt{}}
+					}
+					ps.Cases = append(ps.Cases, pc)
 				}
 				hasFallback := false
 				for _, cs := range ps.Cases {
@@ -229,7 +234,7 @@ func TestC10_Regress(t *testing.T) { runRegress(t, "C10") }
 
 func TestC10_Commands(t *testing.T) {
 	st := stat("C10")
-	st.SetRule("straight-line scripts of 1-8 commands (names incl. multi-byte and keyword-like identifiers; no parentheses, empty parentheses, or 1-5 arguments of 1-5 tokens over identifiers, numbers incl. hex/negative/leading zero, every operator and punctuation token, non-special keywords, balanced nested parentheses with commas inside, constants, one inline text or moves() slot) interleaved with labels, with end/return anywhere (dead code after them must still be emitted) and commands inside statement poryswitch cases (selected, fallback, unselected), printed under a random layout (arguments spread over lines, comments); the script's output block must be exactly one line per command/label, name then ', '-joined space-normalised tokens, then return. non-trivial = an argument with >= 3 tokens, nested parentheses or a negative number after another token; distinct by source text")
+	st.SetRule("straight-line scripts of 1-8 commands (names incl. multi-byte and keyword-like identifiers; no parentheses, empty parentheses, or 1-5 arguments of 1-5 tokens over identifiers, numbers incl. hex/negative/leading zero, every operator and punctuation token, non-special keywords, balanced nested parentheses with commas inside, constants, one inline text or moves() slot) interleaved with labels, with end/return anywhere (dead code after them must still be emitted) and commands inside statement poryswitch cases (selected, fallback, unselected, explicitly empty), printed under a random layout (arguments spread over lines, comments); the script's output block must be exactly one line per command/label, name then ', '-joined space-normalised tokens, then return. non-trivial = an argument with >= 3 tokens, nested parentheses or a negative number after another token; distinct by source text")
 	st.Assume("an argument is either plain tokens or exactly one inline text / moves(); no empty arguments; command names are not keywords, 'end' or 'return'")
 	runRapid(t, "C10", "TestC10_Commands", genC10, checkC10, c10Src)
 }
